@@ -298,9 +298,10 @@ def run_scenarios(work, scenarios, timeout):
     try:
         rc, gout = go_test(work, ["common_test.go", "sim_test.go", "simrun_test.go", "assets_test.go", "c17_test.go"], "^TestVerifSim$",
                            {"VERIF_IN": work.path("m5scen.jsonl"), "VERIF_OUT": work.path("m5out.jsonl"),
-                            "VERIF_PARTIAL": work.path("m5partial.jsonl")}, synctest=True, timeout=timeout)
+                            "VERIF_PARTIAL": work.path("m5partial.jsonl"), "VERIF_HANG_S": "60"}, synctest=True, timeout=timeout)
     except subprocess.TimeoutExpired:
         rc, gout = 1, "harness run exceeded %d s (goroutines that never stop keep the virtual clock running)" % timeout
+    m5.read_hang(work, scenarios)
     if rc != 0 or not os.path.exists(work.path("m5out.jsonl")):
         # the scenarios that did run flushed their traces
         part = read_jsonl(work.path("m5partial.jsonl")) if os.path.exists(work.path("m5partial.jsonl")) else []
@@ -320,7 +321,7 @@ def run(tier, seed):
         n_y = 10 if tier == "quick" else 300          # scenarios with armed yields (acceptor in structural mode)
         scs = [Gen17(rnd).gen(rnd.randint(3, 9)) for _ in range(n)]
         scs += [Gen17(rnd, yields=True).gen(rnd.randint(3, 9)) for _ in range(n_y)]
-        harness_ok, gout, outs = run_scenarios(work, scs, 200 if tier == "quick" else 1500)
+        harness_ok, gout, outs = run_scenarios(work, scs, 400 if tier == "quick" else 1800)
         rejected, mon_fail = [], []
         stats = collections.Counter()
         nevents = 0
@@ -385,6 +386,17 @@ def run(tier, seed):
                                              "failures": [[p, CODES.get(c, str(c)), items[p] if p < len(items) else None] for p, c in fails[:10]],
                                              "scenario": scs[i], "seed": seed, "tier": tier,
                                              "replay": "VERIF_IN=<file with this scenario as one JSON line> go test -tags verif -overlay ... -run ^TestVerifSim$ (tools/m5.run_scenarios)"})
+        elif not harness_ok and m5.last_hang and m5.last_hang["scenario"] and not rejected:
+            # a concrete history on which commands / requests never come back
+            h = m5.last_hang
+            res.violation("hang-%d" % h["index"], {
+                "property": "C17", "seed": seed, "tier": tier, "scenario": h["scenario"],
+                "what": "this scenario does not end on the real code within %d s of REAL time (normally a fraction of a second): "
+                        "a command or request is blocked on a lock that another one holds while it waits (the virtual clock "
+                        "cannot advance), or goroutines started for a command never stop - commands do not return within "
+                        "their timeouts / without waiting" % h["limit_s"],
+                "goroutine_stacks": h["stacks"],
+                "replay": "VERIF_IN=<file with this scenario as one JSON line> go test -tags verif -overlay ... -run ^TestVerifSim$ (tools/m5.run_scenarios)"})
         elif rejected or not harness_ok or not proofs_ok:
             what = ("the timing view rejects an implementation trace" if rejected else
                     "harness does not build/run against the tree" if not harness_ok else "proof obligations of props/C17.v do not check")
